@@ -19,7 +19,7 @@ import (
 
 func init() { wk.Register("c12", c12) }
 
-var c12Hosts = []string{"149.154.167.50:443", "", "localhost:1", "хост.рф:443", "a\"b\\c:1", "<script>&amp;</script>", "tab\there", "nl\nhere", "{\"key\":\"x\"}", " sep", "emoji😀:443", "a,b", "[::1]:443", "\x00nul", "ü"}
+var c12Hosts = []string{"149.154.167.50:443", "", "localhost:1", "хост.рф:443", "a\"b\\c:1", "<script>&amp;</script>", "tab\there", "nl\nhere", "{\"key\":\"x\"}", " sep", "emoji😀:443", "a,b", "[::1]:443", "\x00nul", "ü", "bell\a vt\v del\x7f esc\x1b:1", "\u2028line\u2029sep"}
 
 func init() { wk.Register("c12child", c12child) }
 
@@ -209,6 +209,37 @@ func c12(c *wk.Ctx) {
 		}
 		idx++
 	}
+	// ---- A1. a server address that is not valid UTF-8 ("any byte values"): the file format is JSON text, which has no
+	// way to carry such bytes — recorded as a known finding under this very signature, see known_findings.json
+	if c.Mine(idx) {
+		c.Begin(idx, "hostname not utf-8")
+		r := c.Rand(idx)
+		for _, host := range []string{"\xff\xfe not utf8", "srv\xc3(:443", "\x80"} {
+			s := c12session(r)
+			s.Hostname = host
+			path := filepath.Join(base, fmt.Sprintf("nu%d.json", idx))
+			var got *session.Session
+			var err error
+			pan, pm, st := wk.Guard(func() {
+				l := session.NewFromFile(path)
+				if err = l.Store(s); err == nil {
+					got, err = l.Load()
+				}
+			})
+			os.Remove(path)
+			c.Count("evaluations", 1)
+			switch {
+			case pan:
+				c.Viol("C12", idx, "single/panic/"+st, pm, host)
+			case err != nil:
+				c.Count("hostname_not_utf8.refused", 1) // a refusal stores nothing, so nothing is read back altered
+			case got.Hostname != host:
+				c.Viol("C12", idx, "single/hostname-not-utf8-altered", fmt.Sprintf("stored server address %q, read back %q (key, hash and salt intact: %v)", host, got.Hostname, bytes.Equal(got.Key, s.Key) && got.Salt == s.Salt), host)
+			}
+			c.Distinct("host-not-utf8", host)
+		}
+	}
+	idx++
 	// ---- A2. paths whose directory does not exist: Store must fail cleanly (the property only promises paths whose directory exists)
 	for k := 0; k < 20; k++ {
 		if c.Mine(idx) {
